@@ -122,10 +122,15 @@ func addVehicles(
 			return nil, err
 		}
 
-		if inputVehicle.AlternateStops != nil {
-			inputVehicleHasAlternateStops = true
+		if input.AlternateStops != nil {
+			// the matrices are laid out as stops, alternate stops, start/end per vehicle;
+			// this holds for every vehicle, whether or not it lists alternates itself
 			vehicle.First().SetMeasureIndex(len(input.Stops) + len(*input.AlternateStops) + idx*2)
 			vehicle.Last().SetMeasureIndex(len(input.Stops) + len(*input.AlternateStops) + idx*2 + 1)
+		}
+
+		if inputVehicle.AlternateStops != nil {
+			inputVehicleHasAlternateStops = true
 
 			err = constraint.SetVehicleTypeAttributes(
 				vehicleType,
